@@ -223,3 +223,11 @@ Theorem C03_explicit_optout_respected : forall cfg deployment_default r s client
   In v (h_get k_xfat (upstream_r true cfg r (Authenticated s) client)) -> last_injected k_xfat (inject cfg) = Some v.
 Proof. exact optout_respected. Qed.
 Print Assumptions C03_explicit_optout_respected.
+
+(* Clause F of the monitor (a re-saved session is the presented one or the one the authenticator's
+   answers of this exchange vouch for) accepts what the model re-saves, for every due kind —
+   including a request that joins another request's coalesced refresh / revalidation. *)
+Theorem C03_resaved_session_is_vouched_for : forall allowed d r m,
+  saved_legit allowed d m (model_saved allowed d r m) = true.
+Proof. exact saved_legit_model. Qed.
+Print Assumptions C03_resaved_session_is_vouched_for.
